@@ -15,7 +15,7 @@ func C05() int {
 	}
 	defer s.Close()
 	items := CoreCorpus(g, pickN(c, 1800, 24000))
-	reps := []*string{nil, sp(""), sp(`q"uo'te`), sp(`back\slash\\`), sp("Ωmega ñ 漢"), sp("😀"), sp(strings.Repeat("R", 1024)), sp("$lead"), sp("line\nbreak\ttab")}
+	reps := []*string{nil, sp(""), sp(`q"uo'te`), sp(`back\slash\\`), sp("Ωmega ñ 漢"), sp("😀"), sp(strings.Repeat("R", 1024)), sp("$lead"), sp("line\nbreak\ttab"), sp("100%s %d%%")}
 	var fsets []Flags
 	for i, r := range reps {
 		fsets = append(fsets, Flags{R: r, N: i%2 == 0, B: i%3 != 1, I: i%4 == 0, W: i%5 == 3})
